@@ -291,37 +291,61 @@ func c16Topology(c *Ctx, idx int, total int, steps []topoStep, failedUse bool, r
 			}, 2*time.Second)
 		}
 		time.Sleep(10 * time.Millisecond)
-		// routing: of the next 4 x hosts requests at least one reaches each listed host and none a de-listed host
+		// routing: rounds of 4 x hosts + 2 requests. The backend has seen the refresh (and the new pool's STARTUP, the old
+		// pool's close), but the proxy may need a moment more before its routing has caught up, so up to 10 rounds are sent:
+		// a listed host that none of them reached is starved, a de-listed host that is still reached in the last one is not
+		// dropped.
 		nListed := 0
 		for _, v := range listed {
 			if v {
 				nListed++
 			}
 		}
-		mark := bed.Log.Len()
 		reached := map[int]int{}
-		for k := 0; k < 4*nListed+2; k++ {
-			stream++
-			tok := NewTok()
-			f, err := cl.CallF(BuildRequest(primitive.ProtocolVersion4, stream, KQuery, true, tok, primitive.ConsistencyLevelOne), 15*time.Second)
-			r.Eval(1)
-			if err != nil {
-				r.Violate(mon.Violation{Signature: "C16/request-lost-after-topology-change/" + st.Op, Detail: fmt.Sprintf("request after step %d (%s host %d) got no reply: %v", si, st.Op, st.Host, err), Scenario: scenario})
-				return
+		allReached := func() bool {
+			for h, v := range listed {
+				if v && reached[h] == 0 {
+					return false
+				}
 			}
-			ri := DecodeReply("", f)
-			if ri.HasEcho {
-				reached[ri.Echo.Host]++
-			}
+			return true
 		}
-		for _, e := range bed.Log.Snapshot()[mark:] {
-			if e.Src == "backend" && e.K == "recv" && e.Arrival > 0 && !listed[e.Host] {
-				r.Violate(mon.Violation{Signature: "C16/stray-traffic-to-delisted-host", Detail: fmt.Sprintf("after step %d (%s host %d) a request reached host %d, which the peers table no longer lists", si, st.Op, st.Host, e.Host), Scenario: scenario})
+		strayHost, rounds := 0, 0
+		for round := 0; round < 10; round++ {
+			rounds++
+			mark := bed.Log.Len()
+			for k := 0; k < 4*nListed+2; k++ {
+				stream++
+				tok := NewTok()
+				f, err := cl.CallF(BuildRequest(primitive.ProtocolVersion4, stream, KQuery, true, tok, primitive.ConsistencyLevelOne), 15*time.Second)
+				r.Eval(1)
+				if err != nil {
+					r.Violate(mon.Violation{Signature: "C16/request-lost-after-topology-change/" + st.Op, Detail: fmt.Sprintf("request after step %d (%s host %d) got no reply: %v", si, st.Op, st.Host, err), Scenario: scenario})
+					return
+				}
+				ri := DecodeReply("", f)
+				if ri.HasEcho {
+					reached[ri.Echo.Host]++
+				}
 			}
+			strayHost = 0
+			for _, e := range bed.Log.Snapshot()[mark:] {
+				if e.Src == "backend" && e.K == "recv" && e.Arrival > 0 && !listed[e.Host] {
+					strayHost = e.Host
+				}
+			}
+			if strayHost == 0 && allReached() {
+				break
+			}
+			time.Sleep(20 * time.Millisecond)
+		}
+		r.ObsMax("max:routing_rounds_until_converged", rounds)
+		if strayHost != 0 {
+			r.Violate(mon.Violation{Signature: "C16/stray-traffic-to-delisted-host", Detail: fmt.Sprintf("after step %d (%s host %d) requests still reached host %d, which the peers table no longer lists, in the last of %d rounds of %d requests", si, st.Op, st.Host, strayHost, rounds, 4*nListed+2), Scenario: scenario})
 		}
 		for h, v := range listed {
 			if v && reached[h] == 0 {
-				r.Violate(mon.Violation{Signature: "C16/listed-host-gets-no-traffic/" + st.Op, Detail: fmt.Sprintf("after step %d (%s host %d) none of %d requests reached listed host %d (distribution %v)", si, st.Op, st.Host, 4*nListed+2, h, reached), Scenario: scenario})
+				r.Violate(mon.Violation{Signature: "C16/listed-host-gets-no-traffic/" + st.Op, Detail: fmt.Sprintf("after step %d (%s host %d) none of %d requests reached listed host %d (distribution %v)", si, st.Op, st.Host, rounds*(4*nListed+2), h, reached), Scenario: scenario})
 			}
 		}
 		r.Obs("topology_steps_checked", 1)
